@@ -68,6 +68,12 @@ vars == <<db, inst, ok, origin, sane, steps>>
 \* Model R: partition key k (always 1), clustering key ck in CKs, a (stored as "aa"), b, static st, s set<int>,
 \* l list<int>, m map<int,int>.  0 stands for null; a map is the pair <<m[1], m[2]>>.
 
+\* The elements 1, 2 of s / l and the values 1, 2 of m stand for two TIMESTAMPS (columns Set(DateTime), List(DateTime),
+\* Map(Integer, DateTime)): a type whose database form (epoch milliseconds) is not its Python form (datetime), so that
+\* a mapper that compares or sends the wrong form of an element is seen.  Their order in a list and their identity in a
+\* set / map are all this module uses.  The harness must use exactly these types (it compares with what TLC prints).
+ElemTypes == [s |-> "timestamp", l |-> "timestamp", mk |-> "int", mv |-> "timestamp"]
+
 CKs   == {1, 2}
 NullM == <<0, 0>>
 NullF == [a |-> 0, b |-> 0, st |-> 0, s |-> {}, l |-> <<>>, m |-> NullM]
@@ -397,6 +403,7 @@ Inits == IF Mode = "row" THEN RowInits ELSE CounterInits
 \* the harness reads the alphabets from TLC's output
 ASSUME PrintT(<<"OPS", Ops>>)
 ASSUME PrintT(<<"INITS", Inits>>)
+ASSUME PrintT(<<"ELEMS", ElemTypes>>)
 
 State == [db |-> db, inst |-> inst]
 Enabled(op, S) == IF Mode = "row" THEN En(op, S) ELSE CEn(op, S)
